@@ -61,6 +61,30 @@ pub fn miri_main(prop: &str, start: u64, count: u64, base: u64) -> i32 {
                 println!("MIRI-END C03 {} ops={} kind={}", i, sc.ops.len(), sc.config.kind.name());
             }
         }
+        "C03S" => {
+            // sinc kinds only, built with the SIMD target features on: Miri interprets the AVX and SSE kernels
+            // (the H1 mask picks which one the real dispatch selects)
+            for i in start..start + count {
+                let seed = run_seed(base, "C03S-miri", i);
+                let mut sc = tiny_scenario("C03", seed);
+                let mut rng = Rng::new(seed ^ 0x51D);
+                sc.config.kind = if rng.chance(0.5) { Kind::SincIn } else { Kind::SincOut };
+                sc.config.cpu_mask = *rng.pick(&[0u8, 0, 2, 6, 7]);
+                sc.config.sinc_len = *rng.pick(&[8usize, 16, 24]);
+                sc.config.oversampling = *rng.pick(&[2usize, 3, 4]);
+                if sc.config.max_rel > 1.0 {
+                    sc.ops.insert(0, Op::SetRatio { rel: 1.0 / sc.config.max_rel, ramp: rng.chance(0.5), relative_api: false });
+                }
+                sc.ops.retain(|o| !matches!(o, Op::SetChunk { .. }) || sc.config.kind.is_sinc());
+                println!("MIRI-BEGIN C03S {} {}", i, serde_json::to_string(&sc).unwrap());
+                let v = run_one(&sc);
+                if !v.is_empty() {
+                    bad += 1;
+                    println!("MIRI-VIOL C03S {} {:?}", i, v);
+                }
+                println!("MIRI-END C03S {} ops={} kind={} mask={}", i, sc.ops.len(), sc.config.kind.name(), sc.config.cpu_mask);
+            }
+        }
         "C18" => {
             for i in start..start + count {
                 let seed = run_seed(base, "C18-miri", i);
